@@ -53,3 +53,32 @@ class JsonStub:
 
     def tree(self, text):
         return self.store[text]
+
+
+class MemoryFiles:
+    """open() stub for save_json(path) / load_json(path): a write-then-read returns the text written."""
+
+    def __init__(self):
+        self.files = {}
+
+    def open(self, path, mode="r", encoding=None, **kw):
+        fs = self
+
+        class _F:
+            def __enter__(self_f):
+                return self_f
+
+            def __exit__(self_f, *a):
+                return False
+
+            def write(self_f, text):
+                fs.files[str(path)] = fs.files.get(str(path), "") + text if "a" in mode else text
+
+            def read(self_f):
+                if str(path) not in fs.files:
+                    raise FileNotFoundError(path)
+                return fs.files[str(path)]
+
+        if "r" in mode and str(path) not in self.files:
+            raise FileNotFoundError(path)
+        return _F()
